@@ -1251,7 +1251,12 @@ fn c07_case(rep: &mut Report, w: &Watch, a: &Runtype, b: &Runtype, defs: &[Named
     // negation check; a result that still contains a negation is refused with a diagnostic.
     // The difference is read the way the engine reads it: exact values of A that are not (open)
     // values of B; the type handed on is read exactly as well.
-    if op == "diff" {
+    // (operands with intersections are left out here: the exact reading of `A & B` is the merged
+    // record, which diagram identities such as A & (A | B) = A do not preserve - C05's subject)
+    let a_has_intersection = has_kind(a, &|k| matches!(k, RuntypeKind::AllOf(_))) || defs.iter().any(|d| has_kind(&d.schema, &|k| matches!(k, RuntypeKind::AllOf(_))));
+    if op == "diff" && a_has_intersection {
+        rep.count("exclude_check_skipped_operand_has_intersection", 1);
+    } else if op == "diff" {
         let mut vals_defs: Vec<NamedSchema> = defs.to_vec();
         vals_defs.extend(mat.tail.iter().map(|t| NamedSchema { name: t.name.clone(), schema: t.schema.clone() }));
         if !vals_defs.iter().any(|d| d.name == name) {
